@@ -133,7 +133,16 @@ pub fn c16(_tier: Tier) -> Vec<Space> {
 /// C01 (totality) over the payload functions: only panics are reported.
 pub fn c01_msg(tier: Tier) -> Vec<Space> {
     let c = cfg("C01", false);
-    let mut v = vec![lengths(c), ball1_all_lengths(c, 64), via_line(c), text_lengths(c, 132), binary(c, 130), radio(c)];
+    let mut v = vec![
+        lengths(c),
+        ball1_all_lengths(c, 64),
+        via_line(c),
+        text_lengths(c, 132),
+        binary(c, 130),
+        radio(c),
+        dense(c, variants()),
+        field_pairs(c, variants()),
+    ];
     if tier == Tier::Thorough {
         v.push(ball(c, 2, variants()));
         v.push(field_full("MSG-FIELD(all<=14)", c, variants(), |_| true, 1, 14));
@@ -144,7 +153,15 @@ pub fn c01_msg(tier: Tier) -> Vec<Space> {
 /// C18 (build equivalence): digests of canonical outcomes; the capacity rule.
 pub fn c18_msg(tier: Tier) -> Vec<Space> {
     let c = cfg("C18", false);
-    let mut v = vec![lengths(c), ball1_all_lengths(c, 64), via_line(c), text_lengths(c, 132), binary(c, 130)];
+    let mut v = vec![
+        lengths(c),
+        ball1_all_lengths(c, 64),
+        via_line(c),
+        text_lengths(c, 132),
+        binary(c, 130),
+        dense(c, variants()),
+        field_pairs(c, variants()),
+    ];
     if tier == Tier::Thorough {
         v.push(ball(c, 2, variants()));
         v.push(field_full("MSG-FIELD(all<=14)", c, variants(), |_| true, 1, 14));
